@@ -354,7 +354,10 @@ func EncodeSigned(s Signed, chunks [][]byte, trailerAlgo string) ([]byte, []Chun
 		all = append(all, c...)
 	}
 	emit(nil)
-	b.WriteString("\r\n")
+	if trailerAlgo == "" {
+		b.WriteString("\r\n")
+		return b.Bytes(), spans
+	}
 	if trailerAlgo != "" {
 		name := "x-amz-checksum-" + trailerAlgo
 		val := Checksum(trailerAlgo, all)
